@@ -478,7 +478,13 @@ def doc_oracle(chains, policy, states, extras, entries):
         if ch is None:
             continue
         assigned = [e for (k, e) in seq if k == name]
-        value = CL.dec_val(assigned[-1]) if assigned else None          # a later assignment replaces an earlier one
+        value = CL.dec_val(assigned[-1]) if assigned else None          # a later assignment replaces an earlier one (dict)
+        if len(assigned) > 1:
+            # duplicated field: the statement does not say which occurrence is validated; judge only when it does not matter
+            vs = [CL.dec_val(e) for e in assigned]
+            verdicts = {("none" if x is None else CL.oracle_chain(ch, x)) for x in vs}
+            if len(verdicts) > 1:
+                continue
         has_req = any(c[0] == "REQ" for c in ch)
         if has_req and value is None:
             if not named(path, "error"):
@@ -675,13 +681,16 @@ def tool_worker(task):
                 continue
             status = res.get("validation_status")
             bump("tool:" + str(status))
-            ventries = sorted((e["code"], e["field"], "warning" if e["code"].startswith("W") else "error") for e in res.get("validation_errors", []))
+            # what the tool reports about fields: validation_errors plus the field-level entries of `warnings`
+            reported = [e for e in list(res.get("validation_errors", [])) + list(res.get("warnings", []))
+                        if isinstance(e, dict) and "field" in e and re.fullmatch(r"[EW]\d{3}", str(e.get("code", "")))]
+            ventries = sorted({(e["code"], e["field"], "warning" if e["code"].startswith("W") else "error") for e in reported})
             # tie with the Validator level (constructed objects, same schema/instance)
             doc, sschemas, _ = doc_build(chains, policy, states, extras)
             sschemas = {name: sschemas[SECTION]}
             doc.sections[0].key = name
             try:
-                direct = sorted((e.code, e.field_path, e.severity) for e in Validator().validate(doc, strict=False, section_schemas=sschemas))
+                direct = sorted({(e.code, e.field_path, e.severity) for e in Validator().validate(doc, strict=False, section_schemas=sschemas)})
             except Exception as e:
                 direct = "!" + type(e).__name__
             if direct != ventries and len(out["disagree"]) < MAX_RECORDED:
@@ -1034,6 +1043,16 @@ def run(ctx: vlib.Ctx):
     replay_known(ctx, findings)
     # -- A. primitives --------------------------------------------------------------------------
     stage_primitives(ctx, drv)
+    explore(ctx, exe, findings, rng, base=True, extra=ctx.widen > 1)
+    if ctx.tie_broken() and not ctx.failures and not ctx.thorough and ctx.widen == 1:
+        # the correspondence broke during this run and the base search found no failing input: widen now
+        ctx.widen = 8
+        ctx.notes.append("correspondence disagreement without a failing input: search widened")
+        explore(ctx, exe, findings, rng, base=False, extra=True)
+
+
+def explore(ctx, exe, findings, rng, base, extra):
+    """B, C, D over the base scopes and/or the widened scopes (quick tier only; thorough always runs its full scopes)."""
     # -- B. grid ----------------------------------------------------------------------------------
     tasks = []
     if ctx.thorough:
@@ -1042,25 +1061,32 @@ def run(ctx: vlib.Ctx):
         tasks += list(chain_tasks(exe, "C:core", "Vs", [4], findings, 2000))
         ctx.extra["grid_scope"] = "L<=2 over core+more+thorough x V; L=3 over core+more x V; L=4 over core x Vs"
     else:
-        tasks += list(chain_tasks(exe, "C:core+more", "V", [0, 1, 2], findings, 60))
-        ctx.extra["grid_scope"] = "L<=2 over core+more x V"
-        if ctx.widen > 1:
+        if base:
+            tasks += list(chain_tasks(exe, "C:core+more", "V", [0, 1, 2], findings, 60))
+            ctx.extra["grid_scope"] = "L<=2 over core+more x V"
+        if extra:
             tasks += list(chain_tasks(exe, "C:core+more+thorough", "Vs", [2], findings, 200))
+            tasks += list(chain_tasks(exe, "C:core", "V", [3], findings, 300))
             tasks += list(chain_tasks(exe, "C:core+more", "Vs", [3], findings, 1500))
-            ctx.extra["grid_scope"] += "; widened: L=2 over +thorough x Vs, L=3 over core+more x Vs"
+            ctx.extra["grid_scope"] = ctx.extra.get("grid_scope", "") + "; widened: L=2 over +thorough x Vs, L=3 over core x V and core+more x Vs"
     outs = vlib.pmap(grid_worker, tasks, chunksize=1)
     merge(ctx, outs, "grid")
     # -- C. parse ---------------------------------------------------------------------------------
-    texts = text_cases(ctx.thorough, ctx.widen, rng)
+    texts = text_cases(ctx.thorough, 8 if extra else 1, rng)
+    if not base:
+        seen = {t for t, _ in text_cases(False, 1, rng)}
+        texts = [x for x in texts if x[0] not in seen]
     ptasks = [(exe, "Vs", chunk, findings) for chunk in chunked(texts, 400)]
     outs = vlib.pmap(parse_worker, ptasks, chunksize=1)
     merge(ctx, outs, "parse")
     ctx.count("parse:texts", len(texts))
     # -- D. document level --------------------------------------------------------------------------
-    dcases = doc_cases(ctx.thorough, ctx.widen, rng)
+    dcases = doc_cases(ctx.thorough, 8 if extra else 1, rng)
+    if not base:
+        dcases = dcases[len(doc_cases(False, 1, random.Random(0))) // 2:]
     outs = vlib.pmap(doc_worker, [(exe, chunk, findings) for chunk in chunked(dcases, 1500)], chunksize=1)
     merge(ctx, outs, "doc")
-    tcases = tool_cases(ctx.thorough, ctx.widen, rng)
+    tcases = tool_cases(ctx.thorough, 8 if extra else 1, rng)
     per = max(50, len(tcases) // (vlib.NCPU * 2))
     outs = vlib.pmap(tool_worker, [(chunk, findings, i) for i, chunk in enumerate(chunked(tcases, per))], chunksize=1)
     merge(ctx, outs, "tool")
